@@ -15,7 +15,9 @@ namespace Bluebell
 /-- first characters that leave every keyword-led rule out of the race -/
 def plainStart (c : Char) : Bool :=
   blockChoosesLine c && isPlain c && c != Char.ofNat 14 && c != Char.ofNat 15 &&
-  (["conclusions_marker", "attachment_marker", "body_marker", "preface", "preamble", "conclusions", "attachments"].all
+  (["conclusions_marker", "attachment_marker", "body_marker", "preface", "preamble", "conclusions", "attachments",
+     "introduction", "background", "arguments_marker", "remedies", "motivation", "decision", "remedies_marker",
+     "motivation_marker", "decision_marker"].all
     fun r => !mayStart aknExec 100 (.ref r) (some c) && (aknExec.lookup r).isSome)
 
 def AtLines (inp : Array Char) : Nat → List (List Char) → Prop
@@ -124,7 +126,9 @@ theorem line_exact (p : Nat) (c : Char) (r : List Char) (h : AtPlain inp p (c ::
 
 theorem plainStart_parts {c : Char} (h : plainStart c = true) :
     blockChoosesLine c = true ∧ isPlain c = true ∧ c ≠ Char.ofNat 14 ∧ c ≠ Char.ofNat 15 ∧
-    ∀ r ∈ ["conclusions_marker", "attachment_marker", "body_marker", "preface", "preamble", "conclusions", "attachments"],
+    ∀ r ∈ ["conclusions_marker", "attachment_marker", "body_marker", "preface", "preamble", "conclusions", "attachments",
+     "introduction", "background", "arguments_marker", "remedies", "motivation", "decision", "remedies_marker",
+     "motivation_marker", "decision_marker"],
       mayStart aknExec 100 (.ref r) (some c) = false ∧ (aknExec.lookup r).isSome = true := by
   simp only [plainStart, Bool.and_eq_true, bne_iff_ne, ne_eq, List.all_eq_true, Bool.not_eq_true'] at h
   obtain ⟨⟨⟨⟨h1, h2⟩, h3⟩, h4⟩, h5⟩ := h
